@@ -44,6 +44,9 @@ type OfferingSpec struct {
 	CT        string `json:"ct"`
 	Price     int    `json:"price"` // 1/1000
 	Available bool   `json:"available"`
+	// Rid / Rcap: reservation id and capacity of a reserved offering (ct "reserved"); C06 scenarios
+	Rid  string `json:"rid,omitempty"`
+	Rcap int    `json:"rcap,omitempty"`
 }
 
 type TypeSpec struct {
